@@ -1,0 +1,57 @@
+// SPDX-FileCopyrightText: 2026 The Pion community <https://pion.ly>
+// SPDX-License-Identifier: MIT
+
+//go:build verif && verif_sid && !js
+
+package webrtc
+
+import "sort"
+
+// VerifGenerateDataChannelID runs the stream id allocator of the
+// PeerConnection's SCTP transport for the given DTLS role (property C18).
+func (pc *PeerConnection) VerifGenerateDataChannelID(role DTLSRole) (uint16, error) {
+	var id *uint16
+	if err := pc.sctpTransport.generateAndSetDataChannelID(role, &id); err != nil {
+		return 0, err
+	}
+
+	return *id, nil
+}
+
+// VerifRemoteDataChannel hands a channel with the given stream id to
+// SCTPTransport.onDataChannel, as acceptDataChannels does for a channel the
+// peer opened.
+func (pc *PeerConnection) VerifRemoteDataChannel(id uint16) error {
+	dc, err := pc.api.newDataChannel(&DataChannelParameters{ID: &id, Label: "remote"}, pc.sctpTransport, pc.log)
+	if err != nil {
+		return err
+	}
+	<-pc.sctpTransport.onDataChannel(dc)
+
+	return nil
+}
+
+// VerifDataChannelIDsUsed returns the ids marked in use, sorted.
+func (pc *PeerConnection) VerifDataChannelIDsUsed() []uint16 {
+	pc.sctpTransport.lock.Lock()
+	defer pc.sctpTransport.lock.Unlock()
+	out := make([]uint16, 0, len(pc.sctpTransport.dataChannelIDsUsed))
+	for id := range pc.sctpTransport.dataChannelIDsUsed {
+		out = append(out, id)
+	}
+	sort.Slice(out, func(i, j int) bool { return out[i] < out[j] })
+
+	return out
+}
+
+// VerifSetMaxChannels sets the transport's maxChannels capability.
+func (pc *PeerConnection) VerifSetMaxChannels(m uint16) {
+	pc.sctpTransport.lock.Lock()
+	defer pc.sctpTransport.lock.Unlock()
+	pc.sctpTransport.maxChannels = &m
+}
+
+// VerifDTLSRole returns the local DTLS role as DataChannel.open sees it.
+func (pc *PeerConnection) VerifDTLSRole() DTLSRole {
+	return pc.dtlsTransport.role()
+}
